@@ -128,6 +128,11 @@ struct HLtiMeas : public LTIMeasurementModel {
 // ---------------------------------------------------------------------------------- helpers
 
 static void outGM(Out& o, const GaussianMixture& g) { o.m(g.mean()); o.m(g.covariance()); o.m(g.weight()); }
+// with the shape in front (components, rows of the mean, rows and columns of the covariance storage, weights)
+static void outGMs(Out& o, const GaussianMixture& g) {
+    o.n((long)g.components); o.n((long)g.mean().rows()); o.n((long)g.mean().cols()); o.n((long)g.covariance().rows()); o.n((long)g.covariance().cols()); o.n((long)g.weight().size());
+    o.m(g.mean()); o.m(g.covariance()); o.m(g.weight());
+}
 
 struct Snapshot {
     MatrixXd m, c, w; std::size_t comp, dim, dl, dc, dn, dcov; bool q;
@@ -356,7 +361,7 @@ static std::string ukfp(Toks& t) {
     if (skip) kp.getStateModel().skip("state", true);
     kp.predict(prev, predK);
     Out o; o.s("ok"); o.n((long)X.rows()); o.n((long)X.cols());
-    outGM(o, predU); outGM(o, predK); o.m(X); o.s(same1 && s0.same(prev) ? "in-same" : "in-modified");
+    outGMs(o, predU); outGMs(o, predK); o.m(X); o.s(same1 && s0.same(prev) ? "in-same" : "in-modified");
     return o.str();
 }
 
@@ -396,7 +401,7 @@ static std::string ukfc(Toks& t) {
     kc.correct(pred, corrK);
     auto likK = kc.getLikelihood();
     Out o; o.s("ok"); o.n((long)X.rows()); o.n((long)X.cols());
-    outGM(o, corrU); outLik(o, likU); outGM(o, corrK); outLik(o, likK); o.m(X);
+    outGMs(o, corrU); outLik(o, likU); outGMs(o, corrK); outLik(o, likK); o.m(X);
     o.s(same1 && s0.same(pred) ? "in-same" : "in-modified");
     return o.str();
 }
@@ -444,7 +449,7 @@ static std::string ukfps(Toks& t) {
         kp.predict(prev, predK);
         if (s > 0) o.s(";;");
         o.n((long)X.rows()); o.n((long)X.cols());
-        outGM(o, predU); outGM(o, predK); o.m(X); o.s(s0.same(prev) ? "in-same" : "in-modified");
+        outGMs(o, predU); outGMs(o, predK); o.m(X); o.s(s0.same(prev) ? "in-same" : "in-modified");
     }
     t.done();
     return o.str();
@@ -496,7 +501,7 @@ static std::string ukfcs(Toks& t) {
         if (fail == 0) likK = kc.getLikelihood();
         if (s > 0) o.s(";;");
         o.n((long)X.rows()); o.n((long)X.cols());
-        outGM(o, corrU); outLik(o, likU); outGM(o, corrK); outLik(o, likK); o.m(X);
+        outGMs(o, corrU); outLik(o, likU); outGMs(o, corrK); outLik(o, likK); o.m(X);
         o.s(s0.same(pred) ? "in-same" : "in-modified");
     }
     t.done();
